@@ -144,7 +144,9 @@ def envelope_check(ctx, name, out, x, w, bias, extra=""):
     if not bool(torch.isfinite(out.float()).all()):
         if representable:
             both_f8 = oc.is_qb(x) and oc.is_qb(w) and x.qtype.is_floating_point and w.qtype.is_floating_point
-            sig = "C07:nonfinite-result:float8xfloat8-in-float16" if (both_f8 and out.dtype == torch.float16) else f"C07:nonfinite-result:{name}"
+            w_f8 = oc.is_qb(w) and w.qtype.is_floating_point
+            sig = ("C07:nonfinite-result:float8xfloat8-in-float16" if (both_f8 and out.dtype == torch.float16)
+                   else ("C07:nonfinite-result:float8-weights-in-float16" if (w_f8 and out.dtype == torch.float16) else f"C07:nonfinite-result:{name}"))
             ctx.spec_failures.append((sig, {"site": name, "dtype": str(out.dtype), "x": oc.kind_of(x), "w": oc.kind_of(w), "shape_x": list(x.shape), "shape_w": list(w.shape)}))
         return
     if out.shape != exact.shape:
@@ -352,6 +354,37 @@ def run(ctx):
         if out.dtype != dt:
             ctx.spec_failures.append(("C07:output-dtype", {"got": str(out.dtype), "want": str(dt), "act": akind, "w": wqn}))
         envelope_check(ctx, "linear-realistic", out, x, w, bias)
+    # ---- aligned rows: activations that have the sign pattern of one weight row accumulate without cancellation, so the output is
+    # large compared with the weights (and with the weight scale) although it is far inside the range of the output dtype
+    for _ in range(24 if not ctx.thorough else 240):
+        F = rng.choice(["f16", "f16", "bf16", "f32"])
+        dt = fmts()[F][0]
+        K = rng.choice([128, 256, 512])
+        outF = rng.choice([1, 4, 9])
+        wf = torch.randn(outF, K, generator=g) * 0.02
+        sgn = torch.where(torch.rand(K, generator=g) < 0.5, -1.0, 1.0)
+        wf[0] = sgn * 0.5 * (0.5 + 0.5 * torch.rand(K, generator=g))
+        wqn = rng.choice(["qint8", "qfloat8", "qint4"])
+        w = q.quantize_weight(wf.to(dt), q.qtypes[wqn], 0)
+        rows = rng.choice([1, 3])
+        xf = (sgn * (2 + 6 * torch.rand(rows, K, generator=g))).to(dt)
+        akind = rng.choice(["float", "qint8", "qfloat8_e4m3fn"])
+        if akind == "float":
+            x = xf
+        else:
+            aq = q.qtypes[akind]
+            x = q.quantize_activation(xf, aq, (xf.abs().max().float() / float(torch.finfo(aq.dtype).max if aq.is_floating_point else 127)).to(dt))
+        bias = torch.randn(outF, generator=g).to(dt) if rng.random() < 0.5 else None
+        with torch.no_grad():
+            try:
+                out = torch.nn.functional.linear(x, w, bias)
+            except Exception as e:  # noqa
+                ctx.spec_failures.append((f"C07:linear-raises:{exc_name(e)}", {"F": F, "act": akind, "w": wqn, "message": str(e)[:150]}))
+                continue
+        ctx.evaluations += 1
+        ctx.count(f"aligned:{F}:act-{akind}:w-{wqn}")
+        ctx.nontriv(("aligned", F, akind, wqn, K, outF, rows))
+        envelope_check(ctx, "linear-aligned", out, x, w, bias)
     # ---- operands that are views (expanded, transposed storage, slices, odd offsets), in a child process:
     # the torch kernels behind the integer and int8-pack routes may crash the interpreter on them
     unaligned_probe(ctx)
